@@ -30,6 +30,13 @@ structure EpochInfo where
   height : Int      -- CurrentEpochStartHeight
 deriving DecidableEq, Repr
 
+/-- `epochs.InitGenesis`: a record whose start time is unset (the zero `time.Time`, year 1) starts at the block time; every
+record notes the import height; nothing else is touched — in particular a configured start time, however far in the past,
+is kept. `zero` is the nanosecond value of Go's zero time. -/
+def zeroTime : Int := -62135596800000000000
+def initGenesis (now height : Int) (recs : List EpochInfo) : List EpochInfo :=
+  recs.map (fun e => { e with start := if e.start = zeroTime then now else e.start, height := height })
+
 /-- a listener notification -/
 inductive Call where
   | afterEnd (id : String) (n : Int)
